@@ -227,7 +227,7 @@ class Check:
         self.extra['print_assumptions'] = out.strip()[-6000:]
         self.extra['props_coqc_s'] = round(dt, 1)
         if self.thorough and rc == 0 and os.environ.get('VERIF_COQCHK', '1') == '1':
-            r = subprocess.run('timeout 1500 coqchk -silent -o -R . TW TW.Props.%s 2>&1 | tail -60' % self.pid,
+            r = subprocess.run('timeout 1500 coqchk -o -R . TW TW.Props.%s 2>&1 | tail -60' % self.pid,
                                shell=True, cwd=COQ, stdout=subprocess.PIPE, text=True)
             ok = 'Modules were successfully checked' in r.stdout
             self.oblige('coqchk -o TW.Props.%s (independent re-check of the compiled theorems)' % self.pid,
